@@ -14,10 +14,13 @@ below — a compositional denotational semantics:
 * a loop is `loop cond body fuel`: `fuel` is supplied by the translator's caller per loop as an expression of the
   state at loop entry; running out of fuel is a *panic* value, so a "never panics" theorem also proves termination.
 
-Integer model. Go's `int` is translated to Lean's unbounded `Int`. The translator runs an interval analysis over
-every `int`-typed expression of the function (`int(byte)` ∈ [0,255], literals, `+ - * << |` of those, `len(x)` ∈
-[0,2^62]) and **refuses to translate** when an interval does not fit into int64 or when `|`/`<<` is applied to a
-possibly negative operand; within these bounds machine arithmetic and `Int` arithmetic coincide. Fixed-width unsigned
+Integer model. Go's signed integers (`int` as 64 bits, `int64`, `int32`, …) are translated to Lean's unbounded `Int`.
+The translator runs an interval analysis over every signed expression of the function (`int(byte)` ∈ [0,255],
+literals, `+ - * << |` of those, `len(x)` ∈ [0,2^62], variables by a fixpoint over their assignments, parameters at
+the full range of their type). Where the interval fits the expression's type, machine arithmetic and `Int`
+arithmetic coincide and the plain operation is emitted; where it may not, the result is reduced by `wrapI bits`
+(Go's two's-complement wrap-around, see the end of this file). It **refuses to translate** when `|`/`&`/`<<`/`>>`
+is applied to a possibly negative operand, a shift may overflow, or a divisor may be zero. Fixed-width unsigned
 types (`byte`, `uint16`, …) are translated to Lean's `UInt8`, `UInt16`, … whose operations wrap exactly like Go's
 (shift counts are literal and smaller than the width, checked by the translator).
 
@@ -177,5 +180,60 @@ def sliceTo (d : Bytes) (b : Int) : V Bytes :=
 
 /-- `a >> k` for a literal `k` on a non-negative int -/
 @[inline] def shrI (a : Int) (k : Nat) : Int := Int.ofNat (a.toNat >>> k)
+
+/-! ### Round 4: signed overflow, stores, `range`, buffers
+
+Go defines overflow of signed arithmetic as two's-complement wrap-around. Where the translator's interval analysis
+cannot show that the mathematical result of a signed operation fits the operation's type it emits `wrapI bits`
+around it (`int` counts as 64 bits); where it can, the plain `Int` operation stands. -/
+
+/-- two's-complement reduction of a mathematical integer to `bits` bits -/
+def wrapI (bits : Nat) (x : Int) : Int := (x + 2 ^ (bits - 1)) % 2 ^ bits - 2 ^ (bits - 1)
+
+theorem wrapI_64 (x : Int) : wrapI 64 x = (x + 9223372036854775808) % 18446744073709551616 - 9223372036854775808 := by
+  simp [wrapI]
+
+theorem wrapI_32 (x : Int) : wrapI 32 x = (x + 2147483648) % 4294967296 - 2147483648 := by
+  simp [wrapI]
+
+/-- conversion of a signed value to `uintN`: the low bits -/
+def toU8 (x : Int) : UInt8 := UInt8.ofNat (x % 256).toNat
+def toU16 (x : Int) : UInt16 := UInt16.ofNat (x % 65536).toNat
+def toU32 (x : Int) : UInt32 := UInt32.ofNat (x % 4294967296).toNat
+def toU64 (x : Int) : UInt64 := UInt64.ofNat (x % 18446744073709551616).toNat
+
+/-- `d[i] = v` on a fixed-size array or an unshared slice (the translator refuses variables that may have an
+alias): the updated array, or the panic of Go's bounds check. -/
+def upd (d : Bytes) (i : Int) (v : UInt8) : V Bytes :=
+  if 0 ≤ i ∧ i < d.length then .ok (d.set i.toNat v) else .panic "index out of range"
+
+/-- `for k, x := range xs { body }`: `bind k x` stores the iteration variables. Structural recursion on the list:
+a `range` loop terminates by construction (the translator refuses bodies that write the list). -/
+def forEachL {ρ σ α} (bind : Nat → α → σ → σ) (body : Stmt ρ σ) : List α → Nat → Stmt ρ σ
+  | [], _, s => .next s
+  | x :: xs, k, s =>
+    match body (bind k x s) with
+    | .next s' => forEachL bind body xs (k+1) s'
+    | .cont s' => forEachL bind body xs (k+1) s'
+    | .brk s' => .next s'
+    | .ret r s' => .ret r s'
+    | .panic w => .panic w
+
+@[inline] def forEach {ρ σ α} (xs : σ → List α) (bind : Nat → α → σ → σ) (body : Stmt ρ σ) : Stmt ρ σ := fun s =>
+  forEachL bind body (xs s) 0 s
+
+def lastIndexByteGo (c : UInt8) : Bytes → Nat → Int → Int
+  | [], _, best => best
+  | x :: xs, i, best => lastIndexByteGo c xs (i+1) (if x == c then (i : Int) else best)
+
+/-- `strings.LastIndexByte(s, c)`: index of the last `c`, -1 if there is none -/
+def lastIndexByte (d : Bytes) (c : UInt8) : Int := lastIndexByteGo c d 0 (-1)
+
+def indexByteGo (c : UInt8) : Bytes → Nat → Int
+  | [], _ => -1
+  | x :: xs, i => if x == c then (i : Int) else indexByteGo c xs (i+1)
+
+/-- `strings.IndexByte(s, c)` -/
+def indexByte (d : Bytes) (c : UInt8) : Int := indexByteGo c d 0
 
 end Fabio.Xlate
